@@ -14,20 +14,27 @@ RULE = ("every typed conversion path of length 1..3 over the five containers (ne
         "multi-index / long / 2-D; 108 skeletons) instantiated with a random shape, a single-instance "
         "shape and a single-column shape (n<=3, c<=3, T in 2..4; thorough: every shape <= 3x3x4), "
         "distinct half-integer values, str names from a pool with unsorted / prefix / non-ASCII / "
-        "empty names or int names, Series- or ndarray-valued cells, random optional arguments "
-        "(column_names, cells_as_numpy, return_numpy, index level names), shuffled long tables; "
-        "check_X coercions on every container; nestedness predicates on frames mixing primitive, "
-        "Series, ndarray and list cells. non-trivial = the path ran (or was rejected as expected) on "
-        "a panel with >= 2 values, predicates: frame has both kinds of cells; distinct = distinct "
-        "canonical JSON case")
+        "empty names and the labels the long table uses itself (index, time_index, column, value, "
+        "case_id, ...) or int names, Series- or ndarray-valued cells, random optional arguments "
+        "(column_names, cells_as_numpy - also out of a 2-D table -, return_numpy, index level "
+        "names), shuffled long tables; check_X coercions on every container; nestedness predicates "
+        "on frames mixing primitive, Series, ndarray and list cells; corpus: the six inputs of the "
+        "three repaired defects. non-trivial = the path ran (or was rejected as expected) on a panel "
+        "with >= 2 values, predicates: frame has both kinds of cells; distinct = distinct canonical "
+        "JSON case")
 TRUSTED = [
-    "hand-written Gallina model of the eleven from_*_to_* functions, check_X and the two predicates "
-    "(coq/C15/Model.v); tied to the code ONLY by the correspondence run: exact equality of the "
-    "model's output container (values, order, names, cell kind, index keys) with the canonicalised "
-    "output of the real functions on every generated case",
-    "modelled pandas/numpy semantics: np.stack / reshape / swapaxes / hstack as list transposition "
-    "and chunking, DataFrame.unstack / pivot as sorted-distinct-label lookup, melt as column-major "
-    "emission, pd.unique as first-occurrence order, str ordering as code-point lexicographic order",
+    "coq/C15/Prims.v: the reading of each numpy / pandas / Python primitive the conversion functions "
+    "call (reshape, swapaxes, flatten, hstack, stack, X[i, j, :], df[col] = ..., iteritems, xs, "
+    "unique / groupby(level), pivot, unstack, MultiIndex.from_product, concat, assign, ffill on a "
+    "column without missing values, isinstance, applymap, any) as list functions; "
+    "translator/panel_c15.py (python ast -> Gallina over these primitives, fail-closed) with its "
+    "static typing of the Python values (which parameter is a nested frame / 3-D array / ...; "
+    "isinstance, `is None` on arguments never passed, and .ndim tests decided from these types)",
+    "check_X (sktime/utils/validation/panel.py) is a hand model, tied by the correspondence run only",
+    "correspondence run: exact equality of the model's output container (values, order, names, cell "
+    "kind, index keys) with the canonicalised output of the real functions on every generated case "
+    "- this is also what validates the primitives of Prims.v, through the Bridge lemmas that equate "
+    "the generated functions with the model",
     "canonicalisation in props/c15.py (DataFrame -> nested lists + column names + index lists); "
     "values are k/2 floats compared exactly as the integers k",
 ]
@@ -36,10 +43,15 @@ MODELLED = [
     "0..n-1 / 0..T-1 (the oracle checks the outputs have exactly these); other labels are outside "
     "the property's quantifier",
     "multi-index level names, 2-D DataFrame column labels (f'{col}__{t}') and long-table column "
-    "labels are checked by the Python oracle only, they are not part of the Coq containers",
+    "labels are checked by the Python oracle only, they are not part of the Coq containers; the "
+    "statements that only compute such labels are skipped by the translator and listed in the "
+    "header of build/coq/C15/Gen.v",
     "from_nested_to_3d_numpy / from_nested_to_multi_index with primitive (non-series) columns "
-    "(ffill branch) and unequal-length series are outside the property and not modelled",
+    "(ffill branch: translated, but the Bridge lemmas cover all-nested frames, where it is not "
+    "taken) and unequal-length series are outside the property",
     "column names must be distinct (and all str or all int): duplicate labels are not modelled",
+    "from_nested_to_2d_array: the `except KeyError` path (1x1 frame with a 1-point series whose "
+    "index does not start at 0) and the pd.Series input branch are not modelled",
 ]
 NOT_RUNNABLE = []
 
